@@ -186,6 +186,8 @@ def make_plan(prop, seed):
         mix = r.choice(["builtin", "builtin", "both"])
         adv["p_instr"] = 0.1
 
+    if prop in ("C02", "C07", "C08", "C10", "C16") and r.random() < 0.4:
+        rs["p_add_request"] = 0.1   # a co-simulation user also inserts requests through the API (state-based oracles only)
     if mix == "adv":
         rs["generators"] = ["adv0"]
     elif mix == "both":
